@@ -213,6 +213,9 @@ var kBedWrite = register(&Kind{Name: "bed_write",
 	},
 	Impl: func(in Val) Val {
 		b := valBed(in)
+		poisonWriters(func(w io.Writer) error {
+			return (&bed.BED{N: 6, Chrom: "poison", ChromStart: 1, ChromEnd: 2, Name: "lost", Strand: "+"}).Write(w)
+		})
 		w := &chunkWriter{}
 		err := b.Write(w)
 		mt, merr := b.MarshalText()
